@@ -42,7 +42,7 @@ func sliceID(p unsafe.Pointer, l, c int) string { return fmt.Sprintf("%x/%d/%d",
 func evalC12Arr(cs *c12ArrCase) (vs []*Violation) {
 	add := func(rule, class, detail string) {
 		c := mkCase("C12arr", cs.Obj+"."+cs.Reset, &Cfg{HdrCap: cs.NH, ValCap: cs.NV}, nil, nil)
-		c.Extra = map[string]any{"case": cs}
+		c.Extra = map[string]any{"case": *cs} // a copy: callers re-use their case variables
 		vs = append(vs, &Violation{Property: "C12", Site: cs.Obj + "." + cs.Reset, Rule: rule, Class: class, Detail: detail, Case: c})
 	}
 	defer recoverTo3(add)
